@@ -144,6 +144,17 @@ func checkC18(c *km.Ctx) {
 			n++
 			ok, why := markupSafe(c, operand, 0)
 			r.Add("R-C18-1", km.FuncName(fn), "conversion to "+km.NamedTypeOf(to), posOf(c, in), "operand built only from constants, HTML-escaped values and alphabet-safe encodings", clipS(why, 260), ok)
+			// an escaped value is inert between quotes and as text, not as an unquoted attribute value (a blank
+			// ends the value and what follows is read as further attributes)
+			parts := concatParts(operand, 0)
+			for i, pt := range parts {
+				if pt.v == nil || i == 0 || parts[i-1].v != nil {
+					continue
+				}
+				before := strings.TrimRight(parts[i-1].s, " \t")
+				unquoted := strings.HasSuffix(before, "=")
+				r.Add("R-C18-1", km.FuncName(fn), "markup around the inserted value", posOf(c, in), "the value is inserted between quotes or as text, never as an unquoted attribute value", clipS(parts[i-1].s, 80)+" + "+clipS(km.ValStr(pt.v), 60), !unquoted)
+			}
 		})
 	}
 	if n == 0 {
@@ -445,4 +456,21 @@ func bodyParamIsCertMaterial(c *km.Ctx, fn *ssa.Function, body ssa.Value) bool {
 		}
 	}
 	return true
+}
+
+type concatPart struct {
+	s string    // constant text (v == nil)
+	v ssa.Value // a non-constant operand
+}
+
+// concatParts flattens a string concatenation into its constant and non-constant operands, in order.
+func concatParts(v ssa.Value, depth int) []concatPart {
+	v = km.Unwrap(v)
+	if cs, ok := km.ConstString(v); ok {
+		return []concatPart{{s: cs}}
+	}
+	if b, ok := v.(*ssa.BinOp); ok && b.Op == token.ADD && depth < 12 {
+		return append(concatParts(b.X, depth+1), concatParts(b.Y, depth+1)...)
+	}
+	return []concatPart{{v: v}}
 }
